@@ -84,7 +84,14 @@ def run(ctx):
             order = list(chans)
             rng.shuffle(order)          # the source's field order is NOT the frame's channel order
             fields = [(c['name'], arrays_by_name[c['name']].dtype) if c['width'] is None else (c['name'], arrays_by_name[c['name']].dtype, (c['width'],)) for c in order]
-            wdata = np.zeros(rows, dtype=np.dtype(fields))
+            how = rng.choice(['packed', 'packed', 'aligned', 'view'])        # non-packed layouts: padding must never reach the records
+            if how == 'aligned':
+                wdata = np.zeros(rows, dtype=np.dtype(fields, align=True))
+            elif how == 'view':
+                wide = np.zeros(rows, dtype=np.dtype([('PAD0', 'u1')] + [x for c, f in zip(order, fields) for x in (f, ('PAD_' + c['name'], 'u1', (3,)))]))
+                wdata = wide[[c['name'] for c in order]]
+            else:
+                wdata = np.zeros(rows, dtype=np.dtype(fields))
             for c in chans:
                 wdata[c['name']] = arrays_by_name[c['name']]
         o = impl.outcome(lambda: impl.write_real(df, data=wdata))
